@@ -104,6 +104,10 @@ static const pcall CALLS[] = {
     {"adaptive", 1, 4096, "rand8", 0}, {"adaptive", 2, 64, "cluster", 49}, {"adaptive", 3, 64, "fewuniq", 3},
     {"adaptive", 4, 64, "asc16", 0},  {"adaptive", 5, 64, "randw", 0},  {"adaptive", 1, 128, "asc1", 0},
     {"adaptive", 2, 300, "outlast", 0},
+    /* inputs long enough for any "only worth it for large arrays" shortcut */
+    {"adaptive", -1, 300, "randw", 0}, {"adaptive", -1, 300, "asc16", 0}, {"adaptive", -1, 300, "cluster", 49},
+    {"adaptive", -1, 1000, "fewuniq", 3}, {"for", 0, 300, "rand32", 0}, {"pfor", 95, 1000, "cluster", 49},
+    {"dict", 0, 1000, "fewuniq", 255}, {"bp64", 0, 1000, "randw", 0}, {"rle", 0, 1000, "runs", 5},
     /* short inputs: a single partial block / fewer elements than any internal
      * batch, where scratch arrays are only partly written by the call itself */
     {"bp32", 0, 7, "rand32", 0},      {"bp64", 0, 7, "randw", 0},      {"bpd32", 0, 7, "rand32", 0},
@@ -197,7 +201,7 @@ static void float_prev(const char *arg, const pcall *c) {
     int prec = (int)(c->param / 10), mode = (int)(c->param % 10);
     const char *shapes[3];
     size_t ns = 0, n = c->n;
-    if (!strcmp(arg, "same_api_same_count")) {
+    if (!strcmp(arg, "same_api_same_count") || !strcmp(arg, "same_buffer")) {
         shapes[ns++] = "allspecial";
         shapes[ns++] = "negnormals";
     } else if (!strcmp(arg, "same_api_other_count")) {
@@ -344,7 +348,27 @@ static void run_call(size_t ci, const char *sched, const char *proc) {
              * it only serves to leave residue here */
             prevargs pa[2];
             int npa = 0;
-            if (!strcmp(arg, "same_api_same_count")) {
+            if (!strcmp(arg, "same_buffer")) {
+                /* refill the very buffer of the call under test: same address,
+                 * count, first and last element, other interior */
+                uint64_t *keep = malloc((n + 1) * 8);
+                uint32_t *keep32 = malloc((n + 1) * 4);
+                memcpy(keep, xs, n * 8);
+                memcpy(keep32, x32, n * 4);
+                for (size_t i = 1; i + 1 < n; i++) {
+                    xs[i] = (i % 2) ? xs[0] : xs[i - 1];
+                    x32[i] = (uint32_t)xs[i];
+                }
+                uint8_t *pbuf = malloc(room);
+                enc_out po;
+                memset(&po, 0, sizeof(po));
+                (void)GUARDED(tramp(codec, c->param, pbuf, xs, x32, n, &po));
+                free(pbuf);
+                memcpy(xs, keep, n * 8);
+                memcpy(x32, keep32, n * 4);
+                free(keep);
+                free(keep32);
+            } else if (!strcmp(arg, "same_api_same_count")) {
                 prev_prepare(&pa[npa++], codec, c->param, c->n, 7);
             } else if (!strcmp(arg, "same_api_other_count")) {
                 prev_prepare(&pa[npa++], codec, c->param, c->n + 3, 11);
@@ -418,6 +442,7 @@ int main(int argc, char **argv) {
     guard_install();
     shim_fence = 0;
     shim_bypass = 1; /* the library must see the real heap, residue included */
+    g_prime_meta = 0; /* histories are built by the schedules, not inside encode_into */
     set_perturb(0x5E);
     char line[512];
     size_t idx = 0;
